@@ -93,7 +93,10 @@ LANGS = {
                 decoys=['$s%d = "<block name=decoy>";', "$t%d = '</block>';", '$m%d = <<<\'EOT\'\n// <block name="ml">\n# </block>\nEOT;']),
     "python": dict(suffixes=["py", "pyi"], forms=[HASH], code=["x = 1", "y = x + 2"], indent=False,
                    decoys=['s%d = "<block name=decoy>"', "t%d = '</block>'", '"""<block name=doc%d>"""', 'd%d = """\n# <block name="ml">\n<block name="ml2">\n"""']),
-    "ruby": dict(suffixes=["rb"], forms=[HASH], code=["x = 1", "y = x + 2"],
+    "ruby": dict(suffixes=["rb"],
+                 # `=begin` / `=end` (each at the start of its own line) enclose Ruby's block comment
+                 forms=[HASH, Form("begin-end", "block", "=begin\n", "\n=end", col0=True, trailing_code=False, forbid=("\n=end",))],
+                 code=["x = 1", "y = x + 2"],
                  decoys=['s%d = "<block name=decoy>"', "t%d = '</block>'", 'm%d = <<~EOS\n  # <block name="ml">\nEOS']),
     "rust": dict(suffixes=["rs"],
                  forms=[C_LINE, Form("doc-line", "line", "///", eats_newline=True), C_BLOCK, C_BLOCK_STAR, C_DOC_BLOCK,
